@@ -19,10 +19,13 @@ pub uninterp spec fn pct_decode(raw: Seq<char>) -> Option<Seq<char>>;
 pub struct PercentDecode<'a> { pub raw: &'a str }
 #[verifier::external_body] pub struct Utf8Error { _p: u8 }
 pub fn percent_decode_str<'a>(s: &'a str) -> (r: PercentDecode<'a>) ensures r.raw@ == s@ { PercentDecode { raw: s } }
-/// Cow<'a, str>: its text
-#[verifier::external_body] pub struct CowStr<'a> { _p: &'a u8 }
-pub uninterp spec fn cow_text(c: &CowStr<'_>) -> Seq<char>;
-impl<'a> View for CowStr<'a> { type V = Seq<char>; open spec fn view(&self) -> Seq<char> { cow_text(self) } }
+/// std::borrow::Cow<'a, str> (the payload type is fixed to `str`: `Cow<'r, str>` is retyped to `Cow<'r>`, rule N7)
+pub enum Cow<'a> { Borrowed(&'a str), Owned(String) }
+pub type CowStr<'a> = Cow<'a>;
+impl<'a> View for Cow<'a> {
+    type V = Seq<char>;
+    open spec fn view(&self) -> Seq<char> { match self { Cow::Borrowed(s) => s@, Cow::Owned(s) => s@ } }
+}
 impl<'a> PercentDecode<'a> {
     #[verifier::external_body]
     pub fn decode_utf8(self) -> (r: Result<CowStr<'a>, Utf8Error>)
@@ -106,3 +109,71 @@ pub mod serde_path_to_error {
         ensures match r { Ok(v) => T::from_query(d.input@) == Some(v), Err(_) => T::from_query(d.input@) is None }
     { unimplemented!() }
 }
+
+// ---- the Content-Type gate of the typed body extractors: http headers + the `mime` crate, uninterpreted ---------------
+#[verifier::external_body] pub struct HeaderValue { _p: u8 }
+#[verifier::external_body] pub struct HeaderMap { _p: u8 }
+#[verifier::external_body] pub struct HeaderName { _p: u8 }
+pub struct ToStrError;
+#[verifier::external_body] pub const fn content_type_header() -> HeaderName { unimplemented!() }
+/// the Content-Type header, if any (the only header these functions ask for)
+pub uninterp spec fn content_type_of(h: &HeaderMap) -> Option<HeaderValue>;
+pub uninterp spec fn hv_str(v: &HeaderValue) -> Option<Seq<char>>;
+impl HeaderMap {
+    #[verifier::external_body]
+    pub fn get(&self, n: HeaderName) -> (r: Option<&HeaderValue>)
+        ensures match r { Some(v) => content_type_of(self) == Some(*v), None => content_type_of(self) is None }
+    { unimplemented!() }
+}
+impl HeaderValue {
+    #[verifier::external_body]
+    pub fn to_str(&self) -> (r: Result<&str, ToStrError>)
+        ensures match r { Ok(s) => hv_str(self) == Some(s@), Err(_) => hv_str(self) is None }
+    { unimplemented!() }
+}
+pub uninterp spec fn parse_spec<F>(s: Seq<char>) -> Option<F>;
+#[verifier::external_trait_specification]
+pub trait ExFromStr: Sized { type ExternalTraitSpecificationFor: std::str::FromStr; type Err; }
+/// `Option::is_some_and`
+pub assume_specification<T, F: FnOnce(T) -> bool>[Option::<T>::is_some_and](o: Option<T>, f: F) -> (r: bool)
+    where F: core::marker::Destruct
+    requires o matches Some(t) ==> f.requires((t,)),
+    ensures match o { Some(t) => f.ensures((t,), r), None => !r };
+pub assume_specification<F: std::str::FromStr>[str::parse::<F>](s: &str) -> (r: Result<F, <F as std::str::FromStr>::Err>)
+    ensures (r is Ok) == (parse_spec::<F>(s@) is Some), r is Ok ==> Some(r->Ok_0) == parse_spec::<F>(s@);
+pub mod mime {
+    use super::*;
+    /// a parsed media type; its three names as the `mime` crate reports them (comparison with a literal is the crate's own,
+    /// ASCII-case-insensitive one: `name_is`, uninterpreted)
+    #[verifier::external_body] pub struct Mime { _p: u8 }
+    #[verifier::external_body] pub struct Name<'a> { _p: &'a u8 }
+    pub struct FromStrError;
+    pub uninterp spec fn type_of(m: &Mime) -> Seq<char>;
+    pub uninterp spec fn subtype_of(m: &Mime) -> Seq<char>;
+    pub uninterp spec fn suffix_of(m: &Mime) -> Option<Seq<char>>;
+    pub uninterp spec fn name_text(n: &Name<'_>) -> Seq<char>;
+    /// `Name == "literal"` / `Name == Name`: the crate's comparison
+    pub uninterp spec fn same_name(a: Seq<char>, b: Seq<char>) -> bool;
+    impl std::str::FromStr for Mime { type Err = FromStrError; #[verifier::external_body] fn from_str(s: &str) -> (r: Result<Mime, FromStrError>) { unimplemented!() } }
+    impl Mime {
+        #[verifier::external_body] pub fn type_(&self) -> (r: Name<'_>) ensures name_text(&r) == type_of(self) { unimplemented!() }
+        #[verifier::external_body] pub fn subtype(&self) -> (r: Name<'_>) ensures name_text(&r) == subtype_of(self) { unimplemented!() }
+        #[verifier::external_body] pub fn suffix(&self) -> (r: Option<Name<'_>>)
+            ensures match r { Some(n) => suffix_of(self) == Some(name_text(&n)), None => suffix_of(self) is None } { unimplemented!() }
+    }
+    impl<'a, 'b> PartialEq<&'b str> for Name<'a> { #[verifier::external_body] fn eq(&self, o: &&'b str) -> (r: bool) { unimplemented!() } }
+    impl<'a, 'b> vstd::std_specs::cmp::PartialEqSpecImpl<&'b str> for Name<'a> {
+        open spec fn obeys_eq_spec() -> bool { true }
+        open spec fn eq_spec(&self, o: &&'b str) -> bool { same_name(name_text(self), (*o)@) }
+    }
+    impl<'a, 'b> PartialEq<Name<'b>> for Name<'a> { #[verifier::external_body] fn eq(&self, o: &Name<'b>) -> (r: bool) { unimplemented!() } }
+    impl<'a, 'b> vstd::std_specs::cmp::PartialEqSpecImpl<Name<'b>> for Name<'a> {
+        open spec fn obeys_eq_spec() -> bool { true }
+        open spec fn eq_spec(&self, o: &Name<'b>) -> bool { same_name(name_text(self), name_text(o)) }
+    }
+    /// mime::APPLICATION / mime::WWW_FORM_URLENCODED (constants of an opaque type: retyped to calls, rule N7)
+    #[verifier::external_body] pub fn application() -> (r: Name<'static>) ensures name_text(&r) == "application"@ { unimplemented!() }
+    #[verifier::external_body] pub fn www_form_urlencoded() -> (r: Name<'static>) ensures name_text(&r) == "x-www-form-urlencoded"@ { unimplemented!() }
+}
+#[verifier::external_body] pub struct PathError { _p: u8 }
+#[verifier::external_body] pub struct FormError { _p: u8 }
